@@ -89,7 +89,11 @@ func genInstant(t *rt.Tape) int64 {
 	lo := time.Date(2017, 1, 1, 0, 0, 0, 0, time.UTC).UnixMilli()
 	weeks := int64(t.S(52 * 19))
 	base := lo + weeks*msWeek
-	switch t.SW(4, 4, 1, 1) {
+	switch t.SW(8, 8, 2, 2, 3) {
+	case 4:
+		// exactly on a week boundary of a constellation, or one millisecond either side
+		c := constellations[t.S(len(constellations))]
+		return c.weekStart(base+msWeek/2) + int64(t.S(3)) - 1
 	case 0:
 		// anywhere in the week, to the millisecond
 		return base + int64(t.S(7*24*3600))*1000 + int64(t.S(1000))
@@ -188,6 +192,20 @@ func gnssTime(prop string, anyStart bool) func(*hx.Ctx) *hx.Outcome {
 		if c.Thorough() {
 			maxEpochs = 400
 		}
+		// the start time carries nanoseconds (time.Now() does): any instant, so the
+		// sub-millisecond part must not matter
+		startNs := []int64{0, 0, 0, 1, 499999, 500000, 999999}[t.S(7)]
+		if startNs > 0 {
+			o.Probe("start-time-with-nanoseconds")
+		}
+		// "grid": a real receiver observes all constellations at the same epochs
+		// on whole seconds, so GPS and Galileo carry identical timestamps
+		grid := t.SBool(1, 5)
+		if grid {
+			o.Probe("epochs-on-a-common-grid")
+			T -= T % 1000
+			startNs = 0
+		}
 		// which constellations take part
 		var seqs [][]epoch
 		var used []string
@@ -228,8 +246,19 @@ func gnssTime(prop string, anyStart bool) func(*hx.Ctx) *hx.Outcome {
 					u = T + int64(t.S(int(minI64(we-T, 1<<30))))
 				}
 			}
+			if !anyStart && startNs > 0 && u == T {
+				// the start time is T plus a fraction of a millisecond: the first
+				// observation must not be earlier than it
+				u = T + 1
+				if u >= we {
+					continue
+				}
+			}
 			if u < ws || u >= we || (!anyStart && u < T) {
 				return &hx.Outcome{Infra: fmt.Sprintf("generator slip: first observation %d outside week [%d,%d) of start %d", u, ws, we, T)}
+			}
+			if grid && !anyStart {
+				u = T
 			}
 			n := 1 + t.SF(maxEpochs/2, func(r *rt.Rand) int {
 				if r.Chance(3, 4) {
@@ -241,7 +270,11 @@ func gnssTime(prop string, anyStart bool) func(*hx.Ctx) *hx.Outcome {
 			cur := u
 			for i := 0; i < n; i++ {
 				if i > 0 {
-					cur += genGap(t)
+					if grid {
+						cur += []int64{0, 1000, 30000, 12 * 3600000, msDay, 2 * msDay, 5 * msDay}[t.S(7)]
+					} else {
+						cur += genGap(t)
+					}
 				}
 				typ := cn.msm4
 				if t.S(2) == 1 {
@@ -307,7 +340,7 @@ func gnssTime(prop string, anyStart bool) func(*hx.Ctx) *hx.Outcome {
 		}
 		o.ScenHash = gnss.Hash(wire) ^ uint64(T)
 		viaStream := t.SW(3, 7) == 1
-		start := time.UnixMilli(T).In(loc)
+		start := time.UnixMilli(T).Add(time.Duration(startNs)).In(loc)
 		if c.Detail {
 			var ep []string
 			for i, e := range order {
